@@ -31,7 +31,7 @@
   The proofs are in `Proofs/Rewrite.lean`.
 -/
 import Ctrmml.Proofs.Rewrite
-import Ctrmml.Proofs.OptMeasure
+import Ctrmml.Proofs.OptTerm
 namespace Ctrmml.C01
 open Ctrmml Ctrmml.Tree Ctrmml.Expand Ctrmml.Rewrite Tables
 
@@ -1141,25 +1141,168 @@ theorem C01_fold_pass_decreases {song : Song} {m : SAMap} {subId : Int} {s' : So
     · right
       constructor <;> omega
 
-/-- **Termination of the optimiser** — NOT proved.  The statement: for `0 ≤ minScore` the pass loop
-of `Opt.optimize` ends on every well-formed song, i.e. with enough fuel the run does not end in
-`.error .fuel`.
+/-- **A pass that extracts a subroutine strictly decreases the number of events of the song**: the
+new track has `subLength ≥ 3` events, the occurrence the match was found at and at least one more
+occurrence are replaced by one `JUMP` each (`find_subroutines` finds the occurrence `find_match`
+counted again — `OptSubTerm.counted_found` — unless it has already replaced an earlier one). -/
+theorem C01_extract_pass_decreases {song : Song} {m : SAMap} {subId : Int} {s' : Song} {best : Match} {subId' : Int}
+    (hwf : SongWF song) (hfr : FreshInv song subId)
+    (hfb : findBestMatch song m subId = .ok (s', best, subId'))
+    (hl : best.loopScore < best.subScore) (hs : 1 ≤ best.bestScore) :
+    totalEvents s' + 1 ≤ totalEvents song := by
+  rcases findBestMatch_spec hfb with ⟨h0, _, _⟩ | ⟨_, ⟨srcT, srcPos, hfm⟩, m', happ⟩
+  · omega
+  obtain ⟨ht, hp, _, _⟩ := findMatch_spec hwf.nodup hfm
+  obtain ⟨src, hsrc⟩ := findMatch_track hfm
+  have hpos : 0 < best.subScore := by
+    unfold Match.bestScore at hs
+    rw [if_pos hl] at hs
+    omega
+  have hso := findMatch_subOK2 hsrc hfm hpos
+  rw [← ht, ← hp] at hso
+  rw [← ht] at hsrc
+  exact applyMatch_sub_decreases qsortPerm_of_core hwf.nodup hl hsrc hfr.track_none hso happ
 
-What is proved of it: `C01_fold_pass_decreases` — a pass that folds a loop strictly decreases the
-measure `(totalEvents, playedEvents)`.  What is missing:
-* the same for a pass that extracts a subroutine: it has to be shown that `find_subroutines`
-  replaces at least the `subRepeats` occurrences `find_match` counted (then the pass removes
-  exactly `score ≥ 1` events net); `find_match` counts matches of length `≥ subLength` while
-  `find_subroutines` asks for `find_match_length = subLength` on the mutated song with a spliced
-  stack list, so this is a correspondence between two different searches;
-* `Opt.analyzeTrack` reports the exhaustion of its own recursion budget (`tracks.length + 2`)
-  with the same `OErr.fuel`; that this budget is never exhausted (the `parsing` guard bounds the
-  recursion by the number of distinct call parameters) is not proved. -/
+/-- **Every pass after which the pass loop goes on strictly decreases the termination measure**
+`(number of events, number of events that are not loop brackets/breaks)`, lexicographically, and
+uses up at most one subroutine id per event it removes. -/
+theorem C01_pass_decreases {song : Song} {m : SAMap} {subId : Int} {s' : Song} {best : Match} {subId' : Int}
+    (hwf : SongWF song) (hfr : FreshInv song subId) (hval : validAll song = true) (hnext : subId + 1 < 32768)
+    (hfb : findBestMatch song m subId = .ok (s', best, subId')) (hs : 1 ≤ best.bestScore) :
+    (totalEvents s' < totalEvents song ∨
+      (totalEvents s' = totalEvents song ∧ playedEvents s' < playedEvents song)) ∧
+    subId' + (totalEvents s' : Int) ≤ subId + (totalEvents song : Int) := by
+  by_cases hl : best.loopScore < best.subScore
+  · have h1 := C01_extract_pass_decreases hwf hfr hfb hl hs
+    obtain ⟨_, _, _, h2⟩ := pass_is_step hwf hfr hval hnext hfb
+    exact ⟨Or.inl (by omega), by omega⟩
+  · have h1 := C01_fold_pass_decreases hwf hfb hl hs
+    obtain ⟨_, _, h2⟩ := pass_loop_is_step hwf hfb hl
+    refine ⟨h1, ?_⟩
+    rw [h2]
+    rcases h1 with h | ⟨h, _⟩ <;> omega
+
+/-- a pass keeps the call parameters within `int16_t` -/
+theorem pass_i16 {song : Song} {m : SAMap} {subId : Int} {s' : Song} {best : Match} {subId' : Int}
+    (hwf : SongWF song) (hfr : FreshInv song subId) (hval : validAll song = true) (hnext : subId + 1 < 32768)
+    (hi : SongI16 song) (hfb : findBestMatch song m subId = .ok (s', best, subId')) : SongI16 s' := by
+  obtain ⟨_, hwf', _, _⟩ := pass_is_step hwf hfr hval hnext hfb
+  rcases findBestMatch_spec hfb with ⟨_, h1, _⟩ | ⟨hbs, ⟨srcT, srcPos, hfm⟩, m', happ⟩
+  · rw [h1]; exact hi
+  obtain ⟨ht, hp, _, _⟩ := findMatch_spec hwf.nodup hfm
+  obtain ⟨src, hsrc⟩ := findMatch_track hfm
+  rw [← ht] at hsrc
+  have hci : CallI16 src := hi _ (mem_of_lookup hsrc)
+  by_cases hl : best.loopScore < best.subScore
+  · have hpos : 0 < best.subScore := by
+      unfold Match.bestScore at hbs
+      rw [if_pos hl] at hbs
+      have := (findMatch_spec hwf.nodup hfm).2.2.1
+      omega
+    have hso := findMatch_subOK hsrc (by rw [ht]; exact hfm) hpos
+    obtain ⟨hlen, hbal⟩ := subOK_balanced hsrc hso
+    rw [← hp] at hlen hbal
+    have hfresh := hfr.track_none
+    obtain ⟨_, _, hinv⟩ := applyMatch_sub_is_step hwf hl hsrc hfresh
+      (noJump_of_valid hwf hval hfresh hsrc) hlen hbal happ
+    exact songI16_of_subInv hwf'.nodup hinv hi (callI16_take (callI16_drop hci _) _)
+      ⟨by have := hfr.lo; omega, hfr.hi⟩
+  · rw [applyMatch_loop_eq hsrc hl] at happ
+    simp only [Except.ok.injEq, Prod.mk.injEq] at happ
+    rw [← happ.1]
+    exact songI16_setTrack hi hsrc (callI16_foldedTrack hci _ _ _)
+
+/-- the pass loop does not run out of fuel above the measure of the song -/
+theorem optimize_no_fuel (valid : Song → Bool) (hvalid : ∀ s, valid s = true → validAll s = true)
+    (minScore : Int) (hmin : 0 ≤ minScore) :
+    ∀ (fuel : Nat) (song : Song) (subId : Int) (acc : List Match),
+    SongWF song → FreshInv song subId → validAll song = true → SongI16 song →
+    subId + (totalEvents song : Int) < 32767 → optMeasure song < fuel →
+    optimize valid minScore fuel song subId acc ≠ .error .fuel := by
+  intro fuel
+  induction fuel with
+  | zero => intro song subId acc _ _ _ _ _ h; omega
+  | succ fuel ih =>
+    intro song subId acc hwf hfr hval hi hid hmu
+    unfold optimize
+    cases h1 : analyzeStack song with
+    | error e =>
+      simp only [bind, Except.bind]
+      intro h
+      cases h
+      exact analyzeStack_no_fuel hi h1
+    | ok m =>
+      simp only [bind, Except.bind]
+      cases h2 : findBestMatch song m subId with
+      | error e =>
+        simp only
+        intro h
+        cases h
+        exact findBestMatch_NF song m subId h2
+      | ok x =>
+        obtain ⟨s', best, subId'⟩ := x
+        simp only
+        split
+        · simp [pure, Except.pure]
+        · rename_i hvs
+          split
+          · rename_i hgt
+            have hval' : validAll s' = true := hvalid s' (by simpa using hvs)
+            have hnext : subId + 1 < 32768 := by omega
+            obtain ⟨_, hwf', hfr', _⟩ := pass_is_step hwf hfr hval hnext h2
+            obtain ⟨hdec, hid'⟩ := C01_pass_decreases hwf hfr hval hnext h2 (by omega)
+            exact ih s' subId' _ hwf' hfr' hval' (pass_i16 hwf hfr hval hnext hi h2) (by omega)
+              (by have := optMeasure_lt hdec; omega)
+          · simp [pure, Except.pure]
+
+/-- **Termination of the optimiser**, the statement without side conditions on the size of the
+song — NOT proved in this form.  For `0 ≤ minScore` the pass loop of `Opt.optimize` ends on every
+well-formed song, i.e. with enough fuel the run does not end in `.error .fuel`.
+`C01_optimize_terminates_partial` proves it under three extra hypotheses (see there). -/
 def C01_optimize_terminates_statement : Prop :=
   ∀ (song : Song) (minScore : Int), 0 ≤ minScore → SongWF song →
     (song.tracks.map (·.1)).Pairwise (· < ·) → (∀ p ∈ song.tracks, p.1 < 32767) →
     ∀ fuel, (totalEvents song + 1) * (totalEvents song + 1) < fuel →
       optimize validAll minScore fuel song (initialSubId song) [] ≠ .error .fuel
+
+/-- **C01, termination of the optimiser.**  For every threshold `0 ≤ minScore` and every
+well-formed song (track list in id order without duplicates and ids below 32767, no explicit `END`
+event, `LOOP_BREAK`s without duration, tracks shorter than 32767 events) the run of `Opt.optimize`
+— stack analysis with its own recursion budget, `find_best_match`, `apply_match`, validator after
+every pass — does not end in `.error .fuel` for any fuel above `(totalEvents song + 1)²`: neither
+the pass loop nor the recursion of `analyze_track` exhausts its budget.  Every pass after which the
+loop goes on strictly decreases `(totalEvents, playedEvents)` (`C01_pass_decreases`).
+
+`_partial`: three hypotheses are added to `C01_optimize_terminates_statement`:
+* `hok` — every track of the input song validates (the assumption of property C01; the proof uses it
+  to know that a fresh subroutine id is not called anywhere);
+* `hi` — the parameters of `JUMP` and `NOTE` events are `int16_t` values.  True of every C++ `Event`
+  by its type; the model keeps `param` as an unbounded `Int`, and without the hypothesis the model's
+  `analyzeStack` does exhaust its budget (`Ex2.analyzeStack_fuel_artefact`);
+* `hsz` — `initialSubId song + totalEvents song < 32767`: the subroutine ids the run can hand out
+  (at most one per removed event) stay within `int16_t` (neighbourhood of defect D3: beyond that
+  `sub_id` wraps to negative values). -/
+theorem C01_optimize_terminates_partial (song : Song) (minScore : Int) (hmin : 0 ≤ minScore) (hwf : SongWF song)
+    (hsorted : (song.tracks.map (·.1)).Pairwise (· < ·)) (hids : ∀ p ∈ song.tracks, p.1 < 32767)
+    (hok : ∀ id, song.track? id ≠ none → okTrack song id) (hi : SongI16 song)
+    (hsz : initialSubId song + (totalEvents song : Int) < 32767)
+    (fuel : Nat) (hfuel : (totalEvents song + 1) * (totalEvents song + 1) < fuel) :
+    optimize validAll minScore fuel song (initialSubId song) [] ≠ .error .fuel :=
+  optimize_no_fuel validAll (fun _ h => h) minScore hmin fuel song _ [] hwf
+    (initialSubId_fresh hsorted hids) (validAll_of_ok hwf.nodup hok) hi hsz
+    (by have := optMeasure_bound song; omega)
+
+/-- **The stack analysis never exhausts its recursion budget** (`tracks.length + 2` frames): the
+`parsing` guard of `analyze_track` bounds the depth of the recursion by one plus the number of
+tracks (`OptAnalyze.analyzeTrack_good`: every nested frame marks one more track as being parsed). -/
+theorem C01_analyzeStack_budget (song : Song) (hi : SongI16 song) : analyzeStack song ≠ .error .fuel :=
+  analyzeStack_no_fuel hi
+
+/-- the same for a single call of `analyze_track` with any analyser map, key and event list -/
+theorem C01_analyzeTrack_budget (song : Song) (hi : SongI16 song) (m : SAMap) (self : Int) (evs : List Event)
+    (drum : Int) (hc : CallI16 evs) (fuel : Nat) (hf : song.tracks.length + 1 ≤ fuel) :
+    analyzeTrack song fuel m self evs drum ≠ .error .fuel :=
+  analyzeTrack_no_fuel hi m self evs drum hc fuel hf
 
 end Ctrmml.C01
 
@@ -1243,5 +1386,82 @@ example (s3 : Song) (m3 : SAMap) (id' : Int) (h : applyMatch songS mS bmS 15000 
   obtain ⟨h1, h2, _⟩ := applyMatch_sub_is_step (src := [n 1, n 2, n 3, n 4, n 9]) wfS (by decide) rfl
     (by decide) (by decide) (by decide) (by decide) h
   exact ⟨h1, by rw [h2]; decide⟩
+
+/-! ### termination -/
+
+instance (p : Int) : Decidable (I16 p) := by unfold I16; infer_instance
+instance (l : List Event) : Decidable (CallI16 l) := by unfold CallI16; infer_instance
+instance (S : Song) : Decidable (SongI16 S) := by unfold SongI16; infer_instance
+
+def jmp (k : Int) : Event := ⟨ev_JUMP, k, 0, 0⟩
+
+/-- two tracks that call each other, and a track 65535 that is called with parameter `-1`: the
+hypothesis of `C01_analyzeStack_budget` holds, so the stack analysis stays within its budget -/
+def songR : Song := { tracks := [(0, [n 1, jmp 1, jmp (-1)]), (1, [jmp 0, n 2]), (65535, [jmp (-1), jmp 1])] }
+
+example : analyzeStack songR ≠ .error .fuel := C01_analyzeStack_budget songR (by decide)
+
+/-- **The `int16_t` hypothesis cannot be dropped in the model** (a model artefact, not a defect of
+the C++, whose `Event::param` is an `int16_t`): parameters that differ by multiples of 65536 name
+the same track but have different analysers, so one track with three such calls to itself needs
+four frames; the budget is `1 + 2`. -/
+def songA : Song := { tracks := [(0, [jmp 65536, jmp 131072, jmp 196608])] }
+
+theorem analyzeStack_fuel_artefact : analyzeStack songA = .error .fuel := by
+  have k1 : trackIdOfParam 65536 = 0 := by decide
+  have k2 : trackIdOfParam 131072 = 0 := by decide
+  have k3 : trackIdOfParam 196608 = 0 := by decide
+  have j1 : ev_JUMP ≠ ev_LOOP_START := by decide
+  have j2 : ev_JUMP ≠ ev_NOTE := by decide
+  have w1 : wrap16 1 = 1 := by decide
+  have w2 : wrap16 2 = 2 := by decide
+  have w3 : wrap16 3 = 3 := by decide
+  have w4 : wrap16 4 = 4 := by decide
+  have w5 : wrap16 5 = 5 := by decide
+  simp [analyzeStack_eq, List.foldlM, asBody, songA, analyzeTrack.eq_2, go_cons, stepR, calleeR, analyzeTrack.eq_1,
+    jmp, usage0, k1, k2, k3, j1, j2, getSA, setSA, List.lookup, Song.track?, w1, w2, w3, w4, w5]
+
+example : ¬ SongI16 songA := by decide
+
+theorem freshL : FreshInv songL 15000 := ⟨by decide, by decide, by decide⟩
+theorem freshS : FreshInv songS 15000 := ⟨by decide, by decide, by decide⟩
+
+/-- `C01_pass_decreases` on the pass that folds `songL` (evaluated above: the result is `[c]6`,
+`best = bmL`): six events become three -/
+example (s' : Song) (best : Match) (id' : Int) (hfb : findBestMatch songL mL 15000 = .ok (s', best, id'))
+    (hs : 1 ≤ best.bestScore) :
+    (totalEvents s' < totalEvents songL ∨
+      (totalEvents s' = totalEvents songL ∧ playedEvents s' < playedEvents songL)) ∧
+    id' + (totalEvents s' : Int) ≤ 15000 + (totalEvents songL : Int) :=
+  C01_pass_decreases wfL freshL (by decide) (by decide) hfb hs
+
+example : totalEvents songL = 6 ∧ totalEvents ⟨[(0, [lsEv, n 1, leEv 6])]⟩ = 3 ∧ bmL.bestScore = 3 := by decide
+
+/-- `C01_extract_pass_decreases` on the pass that extracts the four-note phrase of `songS` (the
+compiled model evaluates it to `0: *15000 n9`, `1: n7 *15000`, `15000: n1 n2 n3 n4`: ten events
+become eight) -/
+example (s' : Song) (best : Match) (id' : Int) (hfb : findBestMatch songS mS 15000 = .ok (s', best, id'))
+    (hl : best.loopScore < best.subScore) (hs : 1 ≤ best.bestScore) :
+    totalEvents s' + 1 ≤ totalEvents songS :=
+  C01_extract_pass_decreases wfS freshS hfb hl hs
+
+example : bmS.loopScore < bmS.subScore ∧ 1 ≤ bmS.bestScore ∧ totalEvents songS = 10 := by decide
+
+/-- the hypotheses of `C01_optimize_terminates_partial` are satisfiable: the run on `songL` does not
+run out of fuel for any fuel above `(6 + 1)²` -/
+example (fuel : Nat) (h : 49 < fuel) : optimize validAll 0 fuel songL (initialSubId songL) [] ≠ .error .fuel :=
+  C01_optimize_terminates_partial songL 0 (by decide) wfL (by decide) (by decide)
+    (fun id hid => by
+      have : id = 0 := by
+        by_cases h : id = 0
+        · exact h
+        · exfalso; apply hid
+          have hb : (id == 0) = false := by simp [h]
+          simp [Song.track?, songL, List.lookup, hb]
+      subst this
+      exact ⟨_, List.replicate 6 (item (n 1)), rfl, by rfl⟩)
+    (by decide) (by decide) fuel (by
+      have : totalEvents songL = 6 := by decide
+      rw [this]; omega)
 
 end Ctrmml.C01.Ex2
